@@ -43,6 +43,10 @@ type levelInfo struct {
 	Uncovered   []string `json:"uncovered"`
 }
 
+// baselineHints: obligation name -> solver configuration that decided its
+// slowest query when the baseline was written (tried first at check time).
+var baselineHints = map[string]string{}
+
 func readBaseline(path string) map[string][]string {
 	out := map[string][]string{}
 	f, err := os.Open(path)
@@ -61,7 +65,12 @@ func readBaseline(path string) map[string][]string {
 		if i < 0 {
 			continue
 		}
-		out[l[i+1:]] = strings.Split(l[:i], ",")
+		rest := l[i+1:]
+		if j := strings.LastIndex(rest, " @"); j > 0 {
+			baselineHints[rest[:j]] = rest[j+2:]
+			rest = rest[:j]
+		}
+		out[rest] = strings.Split(l[:i], ",")
 	}
 	return out
 }
@@ -77,7 +86,11 @@ func writeBaseline(path string, b map[string][]string) error {
 	for _, n := range names {
 		ps := append([]string(nil), b[n]...)
 		sort.Strings(ps)
-		sb.WriteString(strings.Join(ps, ",") + " " + n + "\n")
+		hint := ""
+		if h, ok := baselineHints[n]; ok && h != "" && h != "z3-5.1.0-cs3" {
+			hint = " @" + h
+		}
+		sb.WriteString(strings.Join(ps, ",") + " " + n + hint + "\n")
 	}
 	return os.WriteFile(path, []byte(sb.String()), 0o644)
 }
@@ -190,14 +203,28 @@ func (r *Report) emit(verif string, writeEvidence, verbose bool) int {
 		for n, ps := range r.baseline {
 			if len(r.props) == 0 || intersects(ps, r.props) {
 				delete(r.baseline, n)
+				delete(baselineHints, n)
 			}
 		}
+		// Every obligation is assumed once it has been checked, so an obligation
+		// is only as good as the ones before it in the same function: claim the
+		// longest prefix (in generation order) that is discharged fast enough.
+		byFunc := map[string][]*SolveResult{}
 		for _, res := range r.results {
 			if res.Obl.Vacuity {
 				continue
 			}
-			if res.Status == "unsat" && res.MaxS < 8.0 {
+			byFunc[res.Obl.Func] = append(byFunc[res.Obl.Func], res)
+		}
+		for _, rs := range byFunc {
+			sort.Slice(rs, func(i, j int) bool { return rs[i].Obl.Seq < rs[j].Obl.Seq })
+			for _, res := range rs {
+				if !(res.Status == "unsat" && res.MaxS < 20.0) {
+					fmt.Printf("baseline: %s stops at %s (%s, %.1fs)\n", shortKey(res.Obl.Func), shortKey(res.Obl.Name), res.Status, res.MaxS)
+					break
+				}
 				r.baseline[res.Obl.Name] = res.Obl.Props
+				baselineHints[res.Obl.Name] = res.SlowSolver
 			}
 		}
 		if err := writeBaseline(filepath.Join(verif, "baseline_obligations.txt"), r.baseline); err != nil {
